@@ -182,8 +182,8 @@ func checkC12(c *Ctx) {
 	written := map[string]bool{}
 	read := map[string]bool{}
 	toMap, fromMap := fieldMap{}, fieldMap{}
-	sliceEnterHelpers = pbPkg
-	defer func() { sliceEnterHelpers = "" }()
+	sliceEnterHelpers, sliceProg = pbPkg, p
+	defer func() { sliceEnterHelpers, sliceProg = "", nil }()
 
 	// domain sources reachable backwards from v: accessor calls and direct field reads of domain structs
 	domainSources := func(fn *ssa.Function, v ssa.Value) map[string]bool {
